@@ -56,55 +56,66 @@ pub fn parse_case(f: &[&str]) -> Option<Case> {
 }
 
 /// Observation of one case: results of each invocation, sink log, probe log,
-/// number of report renderings that panicked.
+/// number of report renderings that panicked.  After a failed invocation the
+/// next one starts again from the lexer the failed one was given.
 pub fn run_case(c: &Case) -> String {
-    wire::guarded(|| {
-        let m = metrics(c.le, c.tab);
-        let source = SourceText::new(c.text.as_str()).with_column_metrics(m);
-        let sink_log: Rc<RefCell<Vec<String>>> = Default::default();
-        let render_panics: Rc<RefCell<usize>> = Default::default();
-        let env = Env { source, probes: Default::default(), render_panics: Rc::clone(&render_panics) };
-        let mut ctx = if c.sink {
-            let log = Rc::clone(&sink_log);
-            let rp = Rc::clone(&render_panics);
-            Context::new(Some(Box::new(move |e| {
+    wire::guarded(|| run_case_inner(c))
+}
+
+/// `twice` (C08): the same case under `Context::empty()` and under a sink.
+pub fn run_case_twice(c: &Case) -> String {
+    let mut a = c.clone();
+    a.sink = false;
+    let mut b = c.clone();
+    b.sink = true;
+    format!("{}#{}", run_case(&a), run_case(&b))
+}
+
+fn run_case_inner(c: &Case) -> String {
+    let m = metrics(c.le, c.tab);
+    let source = SourceText::new(c.text.as_str()).with_column_metrics(m);
+    let sink_log: Rc<RefCell<Vec<String>>> = Default::default();
+    let render_panics: Rc<RefCell<usize>> = Default::default();
+    let env = Env { source, probes: Default::default(), render_panics: Rc::clone(&render_panics) };
+    let mut ctx = if c.sink {
+        let log = Rc::clone(&sink_log);
+        let rp = Rc::clone(&render_panics);
+        Context::new(Some(Box::new(move |e| {
+            let (d, p) = describe(e, source);
+            if p { *rp.borrow_mut() += 1; }
+            log.borrow_mut().push(d);
+        })))
+    } else {
+        Context::empty()
+    };
+    for i in 0..c.nctx {
+        ctx.push(tag_transform(90 + i as u32));
+    }
+    let mut parser = build(&c.g, &env);
+    let mut lexer = initial_lexer(source, c.sc, c.filter);
+    let mut results = Vec::new();
+    for _ in 0..c.invocations.max(1) {
+        match parser(lexer.clone(), ctx.clone()) {
+            Ok(succ) => {
+                // formatting any reachable lexer state must not panic (C01)
+                let l2 = succ.lexer.clone();
+                if std::panic::catch_unwind(std::panic::AssertUnwindSafe(|| { let _ = format!("{}", l2); })).is_err() {
+                    *render_panics.borrow_mut() += 1;
+                }
+                results.push(format!("ok:{}:{}", show_val(&succ.value), show_lexer(&succ.lexer)));
+                lexer = succ.lexer;
+            }
+            Err(e) => {
                 let (d, p) = describe(e, source);
-                if p { *rp.borrow_mut() += 1; }
-                log.borrow_mut().push(d);
-            })))
-        } else {
-            Context::empty()
-        };
-        for i in 0..c.nctx {
-            ctx.push(tag_transform(90 + i as u32));
-        }
-        let mut parser = build(&c.g, &env);
-        let mut lexer = initial_lexer(source, c.sc, c.filter);
-        let mut results = Vec::new();
-        for _ in 0..c.invocations.max(1) {
-            match parser(lexer.clone(), ctx.clone()) {
-                Ok(succ) => {
-                    // formatting any reachable lexer state must not panic (C01)
-                    let l2 = succ.lexer.clone();
-                    if std::panic::catch_unwind(std::panic::AssertUnwindSafe(|| { let _ = format!("{}", l2); })).is_err() {
-                        *render_panics.borrow_mut() += 1;
-                    }
-                    results.push(format!("ok:{}:{}", show_val(&succ.value), show_lexer(&succ.lexer)));
-                    lexer = succ.lexer;
-                }
-                Err(e) => {
-                    let (d, p) = describe(e, source);
-                    if p { *render_panics.borrow_mut() += 1; }
-                    results.push(format!("err:{}", d));
-                    break;
-                }
+                if p { *render_panics.borrow_mut() += 1; }
+                results.push(format!("err:{}", d));
             }
         }
-        let sink = sink_log.borrow().join(",");
-        let probes = env.probes.borrow().join(",");
-        let rp = *render_panics.borrow();
-        format!("{}|sink=[{}]|probes=[{}]|fmtpanics={}", results.join("&"), sink, probes, rp)
-    })
+    }
+    let sink = sink_log.borrow().join(",");
+    let probes = env.probes.borrow().join("~");
+    let rp = *render_panics.borrow();
+    format!("{}|sink=[{}]|probes=[{}]|fmtpanics={}", results.join("&"), sink, probes, rp)
 }
 
 ////////////////////////////////////////////////////////////////////////////////
@@ -418,7 +429,11 @@ fn mk(text: String, rng: &mut Rng, g: G) -> Case {
 }
 
 fn emit(out: &mut Out, family: &str, c: &Case) {
-    out.case(family, &case_fields(c), || run_case(c));
+    if family == "twice" {
+        out.case(family, &case_fields(c), || run_case_twice(c));
+    } else {
+        out.case(family, &case_fields(c), || run_case(c));
+    }
 }
 
 pub fn family(out: &mut Out, family: &str, tier: &Tier, rng: &mut Rng) {
@@ -505,21 +520,14 @@ pub fn family(out: &mut Out, family: &str, tier: &Tier, rng: &mut Rng) {
             }
             _ => return,
         };
-        // "twice": the same case under both contexts, adjacent in the stream
-        if family == "twice" {
-            let mut a = c.clone(); a.sink = false;
-            let mut b = c.clone(); b.sink = true;
-            emit(out, family, &a);
-            emit(out, family, &b);
-        } else {
-            emit(out, family, &c);
-        }
+        emit(out, family, &c);
     }
 }
 
 pub fn replay(family: &str, f: &[&str]) -> Option<String> {
     match family {
-        "peg" | "rep" | "capture" | "errors" | "bracket" | "list" | "recover" | "twice" | "scoped" | "ctxops"
+        "twice" => Some(run_case_twice(&parse_case(f)?)),
+        "peg" | "rep" | "capture" | "errors" | "bracket" | "list" | "recover" | "scoped" | "ctxops"
         | "term" | "nopanic" => Some(run_case(&parse_case(f)?)),
         _ => None,
     }
